@@ -27,16 +27,22 @@ Definition flatten_values (hows : list string) (t : list (string * list (string 
 
 Definition tolerance : Z := 2 ^ 40.
 
-(* |obs - raw*scale| * 2^40 <= |raw*scale|, with all denominators positive, and raw <> 0 (a zero would prove nothing) *)
+(* scale 1 (same quantity on both sides): obs = raw EXACTLY (bit for bit for floats: a double squeezed through binary32 fails);
+   otherwise |obs - raw*scale| * 2^40 <= |raw*scale| (Python computes the product in binary64).
+   All denominators positive, and raw <> 0 (a zero would prove nothing). *)
 Definition value_ok (r : vrow) : bool :=
   let en := v_raw_num r * v_scale_num r in
   let ed := v_raw_den r * v_scale_den r in
   (0 <? v_obs_den r) && (0 <? ed) && negb (en =? 0) &&
-  (Z.abs (v_obs_num r * ed - en * v_obs_den r) * tolerance <=? Z.abs (en * v_obs_den r)).
+  (if (v_scale_num r =? 1) && (v_scale_den r =? 1)
+   then v_obs_num r * ed =? en * v_obs_den r
+   else Z.abs (v_obs_num r * ed - en * v_obs_den r) * tolerance <=? Z.abs (en * v_obs_den r)).
 
 Definition value_mismatches (rows : list vrow) : list vrow := filter (fun r => negb (value_ok r)) rows.
 
 Definition value_agrees (r : vrow) : Prop :=
   0 < v_obs_den r /\ 0 < v_raw_den r * v_scale_den r /\ v_raw_num r * v_scale_num r <> 0 /\
-  Z.abs (v_obs_num r * (v_raw_den r * v_scale_den r) - v_raw_num r * v_scale_num r * v_obs_den r) * tolerance
-    <= Z.abs (v_raw_num r * v_scale_num r * v_obs_den r).
+  if (v_scale_num r =? 1) && (v_scale_den r =? 1)
+  then v_obs_num r * (v_raw_den r * v_scale_den r) = v_raw_num r * v_scale_num r * v_obs_den r
+  else Z.abs (v_obs_num r * (v_raw_den r * v_scale_den r) - v_raw_num r * v_scale_num r * v_obs_den r) * tolerance
+         <= Z.abs (v_raw_num r * v_scale_num r * v_obs_den r).
